@@ -17,7 +17,13 @@ Init == l = 1 /\ prog = <<>>
 TrReset == Ev.ev = "reset"
 TrPair ==
   /\ Ev.ev = "headpair"
-  /\ LET g == H!RunGET(Ev.prog) IN
+  /\ IF H!HasPanic(Ev.prog)
+     THEN \* the handler panics and the bundled recovery option answers: HEAD still mirrors GET and delivers no body
+          /\ Check("C08", Ev.get.panic = "none" /\ Ev.head.panic = "none", <<"panic escaped the recovery option", Ev.prog>>)
+          /\ Check("C08", Ev.head.status = Ev.get.status /\ H!Without(Ev.head.hdr, H!CL) = H!Without(Ev.get.hdr, H!CL) /\ Ev.head.body = 0,
+                   <<"HEAD differs from GET when the handler panics", Ev.prog, "get", Ev.get, "head", Ev.head>>)
+     ELSE
+     LET g == H!RunGET(Ev.prog) IN
      \* the recorder itself implements the commit semantics the specification states (binding sanity)
      /\ Check("C08", Ev.get.panic = "none" /\ Ev.head.panic = "none", <<"panic", Ev.prog>>)
      /\ Check("C08", Ev.get.status = g.status /\ Ev.get.hdr = g.sent /\ Ev.get.body = g.body,
